@@ -179,7 +179,15 @@ def generate(rng, tier):
             qs2 = _queries(rng, l2, relgrid_only=rng.random() < 0.8)
             jl2 = [{"bpm": F.frac_json(c["bpm"]), "met": c["met"], "m": c["m"], "b": F.frac_json(c["b"])} for c in l2]
             jq2 = [{"m": q["m"], "b": F.frac_json(q["b"]), "met": q["met"]} for q in qs2]
-            cases.append({"kind": "beats", "exact": True, "init": F.frac_json(init), "l": jl2, "qs": jq2})
+            if rng.random() < 0.4:
+                # cumulative beats at ARBITRARY times (times of grid positions + times off the grid, unsorted, duplicates)
+                offs = [F.frac_json(init + Fr(rng.randint(0, 4 * 10 ** 6), rng.choice([1, 3, 7, 1000, 64])))
+                        for _ in range(rng.choice([1, 2, 4, 8]))]
+                if offs and rng.random() < 0.5:
+                    offs.append(offs[0])
+                cases.append({"kind": "beats_t", "exact": True, "init": F.frac_json(init), "l": jl2, "qs": jq2, "offs": offs})
+            else:
+                cases.append({"kind": "beats", "exact": True, "init": F.frac_json(init), "l": jl2, "qs": jq2})
     return cases
 
 
@@ -243,6 +251,12 @@ def execute(case):
                 offs = [Fr(x) for x in tm.offsets(qs)] if qs else []
                 r = tm.beats(offs, Snapper())
                 return {"offs": [F.frac_json(o) for o in offs], "v": [F.frac_json(Fr(x)) for x in r]}
+            if kind == "beats_t":
+                offs = ([Fr(x) for x in tm.offsets(qs)] if qs else []) + [F.frac_from_json(o) for o in case["offs"]]
+                import random as _r
+                _r.Random(len(offs)).shuffle(offs)
+                r = tm.beats(offs, Snapper())
+                return {"offs": [F.frac_json(o) for o in offs], "v": [F.frac_json(Fr(x)) for x in r]}
         except (IndexError, ValueError, ZeroDivisionError, TypeError) as e:
             return {"v": None, "exc": type(e).__name__ + ": " + str(e)[:100]}
         raise ValueError("unknown kind")
@@ -287,6 +301,10 @@ def emit(case, out):
         offs = F.lst([F.q(F.frac_from_json(x)) for x in out.get("offs", [])]) if out["v"] is not None else "[]"
         o = F.opt(out["v"], lambda v: F.lst([F.q(F.frac_from_json(x)) for x in v]))
         return f"CBeats {tol} {init} {l} {qs} {offs} {o}"
+    if kind == "beats_t":
+        offs = F.lst([F.q(F.frac_from_json(x)) for x in out.get("offs", [])]) if out["v"] is not None else "[]"
+        o = F.opt(out["v"], lambda v: F.lst([F.q(F.frac_from_json(x)) for x in v]))
+        return f"CBeatsT {tol} {init} {l} {offs} {o}"
     raise ValueError(kind)
 
 
